@@ -95,6 +95,11 @@ class _FuseConvPadBase(orp.RewriteRuleClassBase):
             **conv_attr,
         )
 
+    def _implicit_pad_value(self, conv_node: ir.Node) -> int | float | None:
+        """The value the convolution's own padding stands for (None if unknown)."""
+        del conv_node  # Unused
+        return 0
+
     def check(self, context, x: ir.Value, pad: ir.Value, conv: ir.Value) -> orp.MatchResult:
         """Condition to check if we need to replace the pattern.
 
@@ -130,13 +135,25 @@ class _FuseConvPadBase(orp.RewriteRuleClassBase):
         # Pad constraints: inputs
         if (pads := pad_node.inputs[1]).const_value is None:
             return check_result.fail(f"{pads.name} is not a constant/initializer.")
+        # The padding implied by the 'pads' attribute of the convolution behaves like this value
+        expected_value = self._implicit_pad_value(conv.producer())
+        if expected_value is None:
+            return check_result.fail(
+                f"The padding value of {conv.producer().op_type} is not statically known."
+            )
         if len(pad_node.inputs) > 2 and (constant_value := pad_node.inputs[2]) is not None:
             if constant_value.const_value is None:
                 return check_result.fail(
                     f"{constant_value.name} is not a constant/initializer."
                 )
-            elif constant_value.const_value.numpy().item() != 0:
-                return check_result.fail(f"{constant_value.name} must be equal to 0.")
+            elif constant_value.const_value.numpy().item() != expected_value:
+                return check_result.fail(
+                    f"{constant_value.name} must be equal to {expected_value}."
+                )
+        elif expected_value != 0:
+            return check_result.fail(
+                f"{pad_node.name} ({pad_node.op_type}) pads with 0, not with {expected_value}."
+            )
         if len(pad_node.inputs) > 3 and (axes := pad_node.inputs[3]) is not None:
             if axes.const_value is None:
                 return check_result.fail(f"{axes.name} is not a constant/initializer.")
@@ -189,6 +206,15 @@ class FuseConvIntegerPad(FuseConvPad):
             _allow_other_inputs=True,
             _outputs=["conv"],
         )
+
+    def _implicit_pad_value(self, conv_node: ir.Node) -> int | float | None:
+        # ConvInteger subtracts x_zero_point from the input: its own padding contributes
+        # nothing, i.e. it behaves like padding the input with x_zero_point.
+        if len(conv_node.inputs) < 3 or (x_zero_point := conv_node.inputs[2]) is None:
+            return 0
+        if x_zero_point.const_value is None or x_zero_point.const_value.size != 1:
+            return None
+        return x_zero_point.const_value.numpy().item()
 
 
 class _NormalizePadFormatBase(orp.RewriteRuleClassBase):
